@@ -20,7 +20,11 @@ import (
 // ---------------------------------------------------------------- client side interceptor
 
 type injector struct {
-	suffix   string // "" for store 0, "@k" for store k: appended to the tag of every event of this pool
+	suffix   string // "" for store 0, "@k" for store k, then "#g" for generation g > 0 of the pool: appended to the tag of every event of this pool
+	root     *injector   // the injector of generation 0 of this store (itself for generation 0)
+	genMu    sync.Mutex  // root only
+	gens     []*injector // root only: one injector per pool generation seen (CloseAddr re-creates the pool), gens[0] = root
+	genUnk   atomic.Bool // root only: an event could not be attributed to a generation
 	roundMu  sync.Mutex
 	lastRnd  string
 	srv      *server
@@ -64,12 +68,61 @@ func (in *injector) evf(mk func() string) {
 	outMu.Unlock()
 }
 
+// forHandle returns the injector of the pool generation behind handle p, creating it if p is new.
+func (in *injector) forHandle(p interface{}) *injector {
+	r := in.root
+	r.genMu.Lock()
+	defer r.genMu.Unlock()
+	for _, g := range r.gens {
+		if h := g.pool.Load(); h != nil && h == p {
+			return g
+		}
+	}
+	if r.pool.Load() == nil {
+		r.pool.Store(p)
+		return r
+	}
+	g := &injector{suffix: fmt.Sprintf("%s#%d", r.suffix, len(r.gens)), root: r, srv: r.srv, refs: map[string]client.VerifEntryRef{}, sc: r.sc,
+		hosts: r.hosts, hostIdx: r.hostIdx, rpc: r.rpc, addr: r.addr, sendFail: r.sendFail, recvFail: r.recvFail, initFail: r.initFail}
+	g.pool.Store(p)
+	r.gens = append(r.gens, g)
+	return g
+}
+
+// forConn returns the injector of the pool generation that owns the gRPC connection cc.
+func (in *injector) forConn(cc *grpc.ClientConn) *injector {
+	r := in.root
+	r.genMu.Lock()
+	for _, g := range r.gens {
+		if h := g.pool.Load(); h != nil && client.VerifPoolHasConn(h, cc) {
+			r.genMu.Unlock()
+			return g
+		}
+	}
+	r.genMu.Unlock()
+	if p := client.VerifPool(r.rpc, r.addr); p != nil && client.VerifPoolHasConn(p, cc) {
+		return r.forHandle(p)
+	}
+	if !r.genUnk.Swap(true) {
+		r.ev("GENUNK")
+	}
+	return r
+}
+
+// allGens lists the injectors of all generations of this store.
+func (in *injector) allGens() []*injector {
+	r := in.root
+	r.genMu.Lock()
+	defer r.genMu.Unlock()
+	return append([]*injector(nil), r.gens...)
+}
+
 func (in *injector) handle() interface{} {
 	h := in.pool.Load()
-	if h == nil {
+	if h == nil && in == in.root {
 		if p := client.VerifPool(in.rpc, in.addr); p != nil {
-			in.pool.Store(p)
-			h = p
+			in.forHandle(p)
+			h = in.pool.Load()
 		}
 	}
 	return h
@@ -115,13 +168,7 @@ func (in *injector) dumpRound() {
 }
 
 func (in *injector) tabOf(conn string, host string) string {
-	h := in.pool.Load()
-	if h == nil {
-		if p := client.VerifPool(in.rpc, in.addr); p != nil {
-			in.pool.Store(p)
-			h = p
-		}
-	}
+	h := in.handle()
 	if h == nil {
 		return "?"
 	}
@@ -143,12 +190,9 @@ func (in *injector) tabOf(conn string, host string) string {
 
 // capture remembers the entries that are in flight right now (called from SendMsg: send() has just stored them).
 func (in *injector) capture() {
-	h := in.pool.Load()
+	h := in.handle()
 	if h == nil {
-		in.tabOf("0", "")
-		if h = in.pool.Load(); h == nil {
-			return
-		}
+		return
 	}
 	in.refMu.Lock()
 	for _, r := range client.VerifEntryRefs(h) {
@@ -186,6 +230,7 @@ func (in *injector) intercept(ctx context.Context, desc *grpc.StreamDesc, cc *gr
 	if !strings.HasSuffix(method, "/BatchCommands") {
 		return streamer(ctx, desc, cc, method, opts...)
 	}
+	in = in.forConn(cc) // the generation of the pool this connection belongs to
 	md, _ := metadata.FromOutgoingContext(ctx)
 	host, conn := "", "?"
 	if v := md.Get(client.VerifForwardKey); len(v) > 0 {
